@@ -89,6 +89,9 @@ Definition sim_res (rho : list (Z * Z)) (M : mstate) (s1 : cstate) (r : res) : P
   | RBr k st' l' _ => exists e n M', nth_error rho k = Some e /\ 0 <= fst e /\ nsteps n M = SNext M'
                                      /\ rel (at_pc (fst e)) st' l' [] M' /\ frame_eq M M'
   | RTrap => exists n e, nsteps n M = STrap e
+  | RReturn st' _ => exists n M', nsteps n M = SNext M' /\ frame_eq M M' /\ ms_idx M' = fidx
+                                /\ code_at c (ms_pc M') [IReturn]
+                                /\ Forall2 repr (ms_globals M') (s_globals st') /\ mem_rel art cap (ms_mem M') (s_mem st')
   | _ => True
   end.
 
@@ -100,6 +103,8 @@ Proof.
     split; [exact A|split; [exact B|eapply frame_eq_trans; eauto]].
   - destruct H as (e & n & M' & A0 & A1 & A & B & C0). exists e, (n1 + n)%nat, M'. rewrite (nsteps_app _ _ _ _ _ _ _ Hn).
     split; [exact A0|split; [exact A1|split; [exact A|split; [exact B|eapply frame_eq_trans; eauto]]]].
+  - destruct H as (n & M' & A & B & C0). exists (n1 + n)%nat, M'. rewrite (nsteps_app _ _ _ _ _ _ _ Hn).
+    split; [exact A|split; [eapply frame_eq_trans; eauto|exact C0]].
   - destruct H as (n & e & A). exists (n1 + n)%nat, e. rewrite (nsteps_app _ _ _ _ _ _ _ Hn). exact A.
 Qed.
 
@@ -185,6 +190,7 @@ Lemma E_loop f st l vs bt body : exec_instr (S f) st l vs (Loop bt body) =
   | r => r
   end.
 Proof. reflexivity. Qed.
+Lemma E_return f st l vs : exec_instr (S f) st l vs (Basic BReturn) = RReturn st vs. Proof. reflexivity. Qed.
 Lemma E_unreachable f st l vs : exec_instr (S f) st l vs (Basic BUnreachable) = RTrap. Proof. reflexivity. Qed.
 
 Lemma exec_prefix bs tl : forall fuel st l vs, forallb straight_ok bs = true ->
@@ -397,6 +403,22 @@ Proof.
   apply code_at_cons in Hc. destruct Hc as [H0 _]. rewrite <- (r_pc _ _ _ _ _ _ _ _ _ _ _ R) in H0.
   cbn. exists 1%nat, TUnreachable. cbn.
   rewrite (mstep_at art mhost codes fidx c consts Hcode M (r_idx _ _ _ _ _ _ _ _ _ _ _ R)), H0, N2Z.id. reflexivity.
+Qed.
+
+Lemma sim_return s v v1 s1 rho st l vs M :
+  inv nl s v -> v_unreach v = None -> cx_return cx = None -> v_ctrls v <> [] ->
+  vstep cx v (OBasic BReturn) = Some v1 ->
+  handle_opcode cx s v1 Reachable (OBasic BReturn) = Some s1 ->
+  matches F s1 -> rel s st l vs M -> sim_res rho M s1 (RReturn st vs).
+Proof.
+  intros I Hu Hret Hne Ev Eh Hm R.
+  destruct (op_return nl cx s v v1 s1 I Hu Hret Hne Ev Eh) as (O1 & O2 & O3 & O4 & O5 & O6 & I1 & Hu1 & X1).
+  assert (Hc : code_at c (cur_off s) [IReturn]).
+  { apply (code_from_F s1 (c_out s) [IReturn] [] Hm); [rewrite app_nil_r; exact O1|].
+    intros j Hj. apply (no_new_pending s s1); auto; [apply (i_bp _ _ _ I)|lia]. }
+  cbn. exists O, M. split; [reflexivity|]. split; [apply frame_eq_refl|]. split; [apply (r_idx _ _ _ _ _ _ _ _ _ _ _ R)|].
+  split; [rewrite (r_pc _ _ _ _ _ _ _ _ _ _ _ R); exact Hc|].
+  split; [apply (r_globals _ _ _ _ _ _ _ _ _ _ _ R)|apply (r_mem _ _ _ _ _ _ _ _ _ _ _ R)].
 Qed.
 
 (** ** composing a block body with what follows the block *)
@@ -896,6 +918,13 @@ Proof.
              ++ left. exact O6.
              ++ eapply lows_mono; [exact Hlo|apply ext_off; exact X1].
           -- destruct Hcase as (e & Ee & H0 & Re). cbn. exists e, 1%nat, Mx. auto.
+        * (* return *)
+          unfold ctl_ok in Hk. rewrite Hu in Hk. destruct (cx_return cx) eqn:Hret; [discriminate|].
+          assert (Hne : v_ctrls v <> []) by (destruct (v_ctrls v); [discriminate|discriminate]).
+          destruct (op_return nl cx s v v1 s1 I Hu Hret Hne Ev Eh) as (O1 & O2 & O3 & O4 & O5 & O6 & I1 & Hu1 & X1).
+          rewrite (lvl_unreach_nil nl cx rest v1 Hu1 Hl') in Hc'. cbn in Hc'. inversion Hc'; subst v' s'.
+          destruct f as [|f2]; [cbn; exact Logic.I|]. rewrite E_return.
+          exact (sim_return s v v1 s1 rho st l vs M I Hu Hret Hne Ev Eh Hm R).
       + eapply (case_block n IH f bt body rest s v v' s'); eauto; lia.
       + eapply (case_loop n IH f bt body rest s v v' s'); eauto; lia.
       + eapply (case_if n IH f bt thn els rest s v v' s'); eauto; lia. }
